@@ -83,6 +83,9 @@ mod bytes;
 mod bytes_mut;
 mod fmt;
 mod loom;
+#[cfg(tokio_rs_bytes_verif)]
+#[doc(hidden)]
+pub mod verif;
 pub use crate::bytes::Bytes;
 pub use crate::bytes_mut::BytesMut;
 
